@@ -244,6 +244,13 @@ EXC_EXPR = {'ValueError': 'ValueError(MSG)', 'KeyError': 'KeyError(MSG)', 'ModEr
             'UnicodeDecodeError': 'UnicodeDecodeError("utf-8", b"ab\\xff", 2, 3, MSG or "invalid start byte")'}
 MSG_CLASSES = {'empty': '', 'plain': 'something failed', 'colon': 'key: value: more', 'multi': 'first line\nsecond line',
                'unicode': 'ünï çødé', 'spaces': '  padded  ', 'quote': 'it\'s "quoted"'}
+# chosen by a fixed function of the case, not by the generator's random draws: a message quoting a file name that
+# came through os.fsdecode (lone surrogates), and one quoting another traceback (the raise ... format_exc() pattern)
+MSG_EXTRA = {'surrogates': 'cannot open data-\udcff\udc80.bin: bad name \udce9',
+             'quoted-traceback': 'job failed:\nTraceback (most recent call last):\n  File "x.py", line 1, in f\nValueError: inner\n\n'
+                                 'During handling of the above exception, another exception occurred:\n\nKeyError: 1'}
+MSG_CLASSES.update(MSG_EXTRA)
+MSG_PICK = ['empty', 'plain', 'colon', 'multi', 'unicode', 'spaces', 'quote']
 
 
 class MemFinder(object):
@@ -366,7 +373,40 @@ def strip_markers(text):
     return '\n'.join(ln for ln in text.split('\n') if not MARKER.match(ln) or not ln.strip())
 
 
+LATE = []
+
+
 def check_live(c, st):
+    """... and, for programs whose source only a loader can serve: an ExceptionInfo captured while the program was alive
+    is rendered only after the module has been unloaded and collected and the line cache emptied (a host that keeps the
+    report of a failed plugin) - it shows what the interpreter showed at the time."""
+    del LATE[:]
+    res = _check_live(c, st)
+    late = LATE[:]
+    del LATE[:]
+    try:
+        if res is None and late:
+            import gc
+            import linecache
+            ei, want_text, name = late[0]
+            gc.collect()
+            linecache.clearcache()
+            st.monitor_evals += 1
+            try:
+                got = ei.get_formatted().rstrip('\n')
+            except Exception as e:
+                return ('exceptioninfo-raised:%s:kept' % type(e).__name__, 'rendering a kept ExceptionInfo of %r raised %r' % (c, e))
+            if got != want_text:
+                return ('format:kept-exceptioninfo:after-module-unloaded', 'an ExceptionInfo kept until its module was unloaded and '
+                        'collected renders %r, the interpreter showed %r (case %r)' % (got[-300:], want_text[-300:], c))
+            st.count('live_cases_rendered_after_module_unloaded')
+        return res
+    finally:
+        for _ei, _w, name in late:
+            MemFinder.sources.pop(name, None)
+
+
+def _check_live(c, st):
     if c.get('rerun') and not c.get('_reuse_name'):
         # edit-and-rerun: the same file path holds a first program, is rendered once, then is rewritten with
         # different source at the same line numbers; the second traceback must show the NEW lines
@@ -387,7 +427,7 @@ def check_live(c, st):
         except Exception:
             et, ev, tb = sys.exc_info()
             while tb is not None and 'importlib' in tb.tb_frame.f_code.co_filename or \
-                    tb is not None and tb.tb_frame.f_code is check_live.__code__:
+                    tb is not None and tb.tb_frame.f_code is _check_live.__code__:
                 tb = tb.tb_next         # the harness's own frame and the import machinery are not the program
         else:
             return ('harness', 'generated program did not raise: %r' % (c,))
@@ -540,10 +580,13 @@ def check_live(c, st):
         if c.get('marks'):
             st.count('live_cases_source_with_' + c['marks'])
         st.peak('max_chain_depth', len(c['chain']))
+        if c.get('mem') and c.get('limit') is None and c.get('syslimit') is None and 'pseudo-file' not in c['chain']:
+            LATE.append((tbu.ExceptionInfo.from_exc_info(et, ev, tb), want_text, name))
         return None
     finally:
         sys.modules.pop(name, None)
-        MemFinder.sources.pop(name, None)
+        if not any(n_ == name for _e, _w, n_ in LATE):
+            MemFinder.sources.pop(name, None)
         try:
             os.unlink(os.path.join(odd_dir(c['odd_path']) if c.get('odd_path') else pkg_dir(), name + '.py'))
         except OSError:
@@ -553,7 +596,7 @@ def check_live(c, st):
 def gen_live(r):
     depth = r.choice([0, 1, 2, 3, 5, 8, 25])
     chain = [r.choice(LINKS) for _ in range(depth)]
-    c = {'kind': 'live', 'chain': chain, 'exc': r.choice(list(EXC_EXPR)), 'msg': r.choice(list(MSG_CLASSES)),
+    c = {'kind': 'live', 'chain': chain, 'exc': r.choice(list(EXC_EXPR)), 'msg': r.choice(MSG_PICK),
          'unicode_name': r.random() < 0.15, 'rerun': r.random() < 0.2}
     if r.random() < 0.3:
         c['limit'] = r.choice([1, 2, 3, 5, 40])
@@ -571,6 +614,8 @@ def gen_live(r):
     pick = (len(chain) * 7 + len(c['exc']) + len(c['msg']) * 3 + len(c)) % 21
     if pick < len(MARKS) and not c.get('mem'):
         c['marks'] = sorted(MARKS)[pick]
+    elif pick in (8, 9) and c['exc'] not in ('ZeroDivisionError', 'AttributeError'):
+        c['msg'] = sorted(MSG_EXTRA)[pick - 8]
     return c
 
 
